@@ -112,8 +112,11 @@ Proof.
   change (2 ^ 32) with 4294967296 in V32.
   assert (SW : 0 <= bswap32 v < 4294967296).
   { unfold bswap32. cbn [le_bytes rev app le_val]. lia. }
+  assert (MSV : Z.land M 255 = 0 -> v mod 256 = 0).
+  { intros MS. change 256 with (2 ^ 8). rewrite <- Z.land_ones by lia. change (Z.ones 8) with 255.
+    rewrite <- HM, <- Z.land_assoc, MS, Z.land_0_r. reflexivity. }
   unfold spec_cmode, grid_of_value. change (32 =? 32) with true. cbn [andb].
-  fold M.
+  change (Z.lor (Z.lor (Z.shiftl rmax rs) (Z.shiftl gmax gs)) (Z.shiftl bmax bs)) with M.
   destruct (negb (tc =? 0) && (depth <=? 24)) eqn:C; cbn [andb];
     [|destruct (be =? 0); unfold cpix_ok, pix_ok; change (256 ^ Z.of_nat 4) with 4294967296; lia].
   destruct (M <? 16777216) eqn:LS.
@@ -121,12 +124,10 @@ Proof.
     change (2 ^ 24) with 16777216 in V24.
     destruct (be =? 0) eqn:BE; cbn [andb orb negb].
     + unfold cpix_ok. lia.
-    + destruct (Z.land M 255 =? 0); cbn [andb orb negb]; unfold cpix_ok, bswap32; cbn [le_bytes rev app le_val]; lia.
+    + destruct (Z.land M 255 =? 0) eqn:MS; [apply Z.eqb_eq in MS; pose proof (MSV MS)|];
+        cbn [andb orb negb]; unfold cpix_ok, bswap32; cbn [le_bytes rev app le_val]; lia.
   - cbn [andb orb]. destruct (Z.land M 255 =? 0) eqn:MS.
-    + apply Z.eqb_eq in MS.
-      assert (V0 : v mod 256 = 0).
-      { change 256 with (2 ^ 8). rewrite <- Z.land_ones by lia. change (Z.ones 8) with 255.
-        rewrite <- HM, <- Z.land_assoc, MS, Z.land_0_r. reflexivity. }
+    + apply Z.eqb_eq in MS. pose proof (MSV MS) as V0.
       destruct (be =? 0) eqn:BE; cbn [andb orb negb]; unfold cpix_ok, bswap32; cbn [le_bytes rev app le_val]; lia.
     + destruct (be =? 0); cbn [andb orb negb]; unfold cpix_ok, pix_ok; change (256 ^ Z.of_nat 4) with 4294967296; lia.
 Qed.
